@@ -1,4 +1,4 @@
-CONSTANTS W = 2 Target = 2 Epochs = 1 KeepSender = TRUE JoinUnwrap = TRUE Faults <- PanicOnly QMax = 2 Outcomes <- OutErr BchThreshold = 0 RQMax = 2 MaxFrames = 100
+CONSTANTS W = 2 Target = 2 Epochs = 1 KeepSender = TRUE JoinUnwrap = TRUE Faults <- PanicOnly QMax = 2 Outcomes <- OutErr BchThreshold = 0 RQMax = 2 BoundedSend = FALSE MaxFrames = 100
 SPECIFICATION Spec
 INVARIANTS NoStuck
 CHECK_DEADLOCK FALSE
